@@ -25,7 +25,7 @@ impl Engine for ConfE2e {
                 let (stream, peer) = mock::pair();
                 let stop = Arc::new(AtomicBool::new(false));
                 let seen = Arc::new(Mutex::new(Seen::default()));
-                let cfg = AutoConfig { ch_max: 0, frame_max: 131072, heartbeat: 0, confirms: true, eof_after_close_ok: false, close_ok_delay_ms: 0, step_delay_ms: 0, open_ok_delay_ms: 0, tail: Vec::new(), tail_with_open_ok: 0, silent: Arc::new(AtomicBool::new(false)) };
+                let cfg = AutoConfig { ch_max: 0, frame_max: 131072, heartbeat: 0, confirms: true, eof_after_close_ok: false, close_ok_delay_ms: 0, step_delay_ms: 0, open_ok_delay_ms: 0, tail: Vec::new(), tail_with_open_ok: 0, declares_together: 0, silent: Arc::new(AtomicBool::new(false)) };
                 let bt = {
                     let (p, s, st) = (peer.clone(), stop.clone(), seen.clone());
                     std::thread::spawn(move || broker::auto_broker(p, cfg, s, st))
